@@ -38,8 +38,12 @@ ASSUMPTIONS = [
     'crash model of the property: a prefix of the issued low-level '
     'operations with at most one torn (byte-prefix) write; no reordering of '
     'un-synced writes (all applied, or -- at acknowledgement points -- all '
-    'lost; arbitrary subsets of un-synced writes are not explored: '
-    'FileStorage issues one fsync per commit and relies on their order)',
+    'lost, or -- after each data-file write -- the file length persisted '
+    'with the appended bytes, from the last synced length, a block boundary '
+    'or a random point on, reading as zeros; arbitrary subsets of un-synced '
+    'writes, e.g. a lost block followed by a persisted one, are not '
+    'explored: FileStorage issues one fsync per commit and relies on their '
+    'order)',
     'a transaction whose tpc_finish had been invoked but had not returned '
     'at the crash may be present or absent',
 ]
@@ -223,7 +227,8 @@ class Recovery:
         try:
             st = FileStorage(PATH)
         except Exception as e:      # noqa: B902
-            self.flag('recovery-raises', '%s: FileStorage(path) raised %s: %s'
+            self.flag('recovery-raises' + getattr(self, 'fam', ''),
+                      '%s: FileStorage(path) raised %s: %s'
                       % (where, type(e).__name__, str(e)[:80]))
             return
         try:
@@ -387,11 +392,23 @@ def run(case):
     tmp_inos = set()
     synced = bytes(snap0['inodes'][data_ino])
     acks = {mk['ret'] for mk in marks if mk['ret'] is not None}
+    overwritten = False
+    size_before = len(synced)
     for k in range(len(log) + 1):
         rep.advance(k)
         op = log[k - 1] if k else None
         if op is not None and op[0] == 'fsync' and op[1] == data_ino:
             synced = bytes(rep.inodes[data_ino])
+            overwritten = False
+        if op is not None and op[1] == data_ino and (
+                op[0] == 'truncate' or
+                (op[0] == 'write' and op[2] < size_before)):
+            # something other than an append since the last fsync (the
+            # status byte of tpc_finish, an abort's truncate): an image
+            # that has it but not the appended bytes needs reordering
+            overwritten = True
+        if data_ino in rep.inodes:
+            size_before = len(rep.inodes[data_ino])
         if k in acks and PATH in rep.files:
             # power loss right after a commit returned: every write to
             # the data file that was not followed by an fsync is lost
@@ -400,6 +417,40 @@ def run(case):
             rec.bump('power_loss_images')
             rec.check(img, k, None, False, 'power loss after op %d/%d '
                       '(un-synced data-file writes lost)' % (k, len(log)))
+        if op is not None and op[0] == 'write' and op[1] == data_ino \
+                and PATH in rep.files and not overwritten \
+                and len(rep.inodes[data_ino]) > len(synced):
+            # power loss with the new file length on disk before the data
+            # (delayed allocation, data=writeback): what was appended
+            # since the last fsync reads as zeros -- all of it, or all of
+            # it behind a block boundary / a random point
+            cur = rep.inodes[data_ino]
+            n0, n1 = len(synced), len(cur)
+            pts = {n0}
+            b4 = (n0 // 4096 + 1) * 4096
+            if b4 < n1:
+                pts.add(b4)
+            if n1 - n0 > 2 and r.random() < 0.5:
+                pts.add(r.randrange(n0 + 1, n1))
+            if n1 - n0 > 23 and r.random() < 0.3:
+                pts.add(n0 + r.randrange(1, 24))    # inside the header
+            for j in sorted(pts):
+                img = rep.image(bufsize=case['bufsize'])
+                img.names[PATH].data = bytearray(
+                    synced + bytes(cur[n0:j]) + b'\0' * (n1 - j))
+                rec.bump('zero_tail_images')
+                # (known finding: zeros that begin inside the length or
+                # status field of the un-synced transaction's header --
+                # its id and possibly a plausible length are there, the
+                # 'c' status is not)
+                rec.fam = '/zeros-from-inside-header-length-or-status' \
+                    if 8 < j - n0 <= 16 else ''
+                try:
+                    rec.check(img, k, None, False, 'power loss after op '
+                              '%d/%d (file length %d on disk, bytes from %d '
+                              'on read as zeros)' % (k, len(log), n1, j))
+                finally:
+                    rec.fam = ''
         if op is not None and op[0] == 'create' and op[1].endswith('.tmp'):
             tmp_inos.add(op[2])
         skip = (op is not None and op[0] in ('write', 'truncate')
